@@ -251,8 +251,7 @@ def r2(ctx):
     ctx.floor(R, n, 20)
 
 
-def r3(ctx):
-    R = 'R01.3'
+def r3(ctx, R='R01.3'):
     ctx.rule(R, 'id counter: only `+= 1` writes; fresh id read under the same write access; added tracks carry a fresh id')
     F = ctx.F
     n = 0
